@@ -35,11 +35,18 @@ type c08Row struct {
 	Opt  *int64  `parquet:"opt,optional"`
 	List []int64 `parquet:"list,list"`
 	S    string  `parquet:"s,dict"`
+	// an optional leaf inside an optional group (maximum definition level 2):
+	// the group can be present while the leaf is null
+	G *c08Grp `parquet:"zg,optional"`
 }
 
-const c08NumCols = 4
+type c08Grp struct {
+	V *int64 `parquet:"v,optional"`
+}
 
-var c08ColNames = [c08NumCols]string{"id", "opt", "list", "s"}
+const c08NumCols = 5
+
+var c08ColNames = [c08NumCols]string{"id", "opt", "list", "s", "zg.v"}
 
 func c08MakeRow(r int64) c08Row {
 	row := c08Row{ID: r, S: fmt.Sprintf("s%05d", r)}
@@ -49,6 +56,13 @@ func c08MakeRow(r int64) c08Row {
 	}
 	for j := int64(0); j < r%4; j++ {
 		row.List = append(row.List, r*10+j)
+	}
+	if r%5 != 0 {
+		row.G = &c08Grp{}
+		if r%3 != 1 {
+			v := r * 7
+			row.G.V = &v
+		}
 	}
 	return row
 }
@@ -79,8 +93,13 @@ func c08Expect(col int, r int64) []c08Cell {
 			out = append(out, c08Cell{i: r*10 + j})
 		}
 		return out
-	default:
+	case 3:
 		return []c08Cell{{s: fmt.Sprintf("s%05d", r), str: true}}
+	default:
+		if r%5 == 0 || r%3 == 1 {
+			return []c08Cell{{null: true}}
+		}
+		return []c08Cell{{i: r * 7}}
 	}
 }
 
@@ -109,6 +128,8 @@ func c08RowOf(col int, vals []parquet.Value) int64 {
 		return vals[0].Int64() / 3
 	case 2:
 		return vals[0].Int64() / 10
+	case 4:
+		return vals[0].Int64() / 7
 	default:
 		n, err := strconv.ParseInt(strings.TrimPrefix(string(vals[0].ByteArray()), "s"), 10, 64)
 		if err != nil {
